@@ -1,7 +1,8 @@
 /* job: is_ipv6 (src/is_ipv4_ipv6.c) against the RFC 4291 text-form automaton (C05, C06).
    The loop is width-bounded: every iteration consumes one ':' (the 8th returns NO) or a *maximal* run of
    hex digits, so it runs at most 17 times whatever the input length.  It is unwound 18 times with the
-   unwinding assertion as an obligation: complete, not a bounded stand-in.  No loop invariant needed. */
+   unwinding assertion as an obligation: the unwinding is complete.  No loop invariant needed.
+   Input length: g_len <= 45 here (see the precondition); longer inputs: job is_ipv6_len. */
 #include <models_common.h>
 #include <scan_common.h>
 #include <spec_ip.h>
@@ -31,7 +32,9 @@ __CPROVER_ensures(rec_ip4_calls == __CPROVER_old(rec_ip4_calls) + 1 && rec_ip4_s
 
 #define RET __CPROVER_return_value
 int is_ipv6(const char *start, const char *end)
-__CPROVER_requires(RANGE_REQ(start, end, (size_t)0x7ffffff0) && start[g_len] == ']')
+/* fixed 46-byte object: with a symbolic object size the 18 unwound iterations run out of memory (> 24 GB).
+   Addresses longer than 45 bytes: job is_ipv6_len proves that without a dotted quad they are never accepted. */
+__CPROVER_requires(g_len <= 45 && __CPROVER_is_fresh(start, 46) && __CPROVER_pointer_in_range_dfcc(start, end, start + g_len) && end == start + g_len && start[g_len] == ']')
 __CPROVER_requires(v_ph == V_START && v_groups == 0 && v_hex == 0 && v_dc == 0 && g_pos == 0 && g_grp == 0 && rec_ip4_calls == 0)
 __CPROVER_assigns(v_ph, v_groups, v_hex, v_dc, g_pos, g_grp, rec_ip4_calls, rec_ip4_rc, rec_ip4_start, rec_ip4_end)
 __CPROVER_ensures(RET == 0 || RET == 1)
